@@ -24,6 +24,7 @@ The index-order condition "entries of one list are opened in increasing order" i
 (`index_order_not_needed`).
 -/
 import Rpft.Lemmas.InferPerm
+import Rpft.Lemmas.InferRow
 import Rpft.Gen.Tables
 set_option linter.unusedSimpArgs false
 set_option linter.unusedVariables false
@@ -310,6 +311,54 @@ theorem missing_index_leaves_hole :
       (.model [("f".toList, .list .str, .list [.str "a".toList, .none, .str "c".toList])]) = true := by
   decide +kernel
 
+/-! ### rows: the inferred model parses like the explicit one -/
+
+/-- **Inferred = explicit on every row** (the property's own observable, over the `RowParser`
+model `Rpft/RowParse.lean`).  For every schema of the family and EVERY row (any cells: valid,
+blank, malformed, columns missing or unknown), parsing the row with the model inferred from the
+schema's headers gives exactly the outcome — value or error — of parsing it with the explicit
+model: `infer_render` composed with the row parser (same model ⇒ same parse). -/
+theorem inferred_parses_like_explicit (sch : Schema) (h : InFamily sch) (row : List (Str × Str)) :
+    parseInferred (renderHeaders sch) row = some (Row.parseRow (rowSchema (.model sch)) row) := by
+  unfold parseInferred
+  rw [infer_render sch h]
+
+/-- a sheet of the non-vacuity example: simple field, list of records, indexed list -/
+def rowDemo : Schema :=
+  [("note".toList, .str, .str "n".toList),
+   ("o".toList, .list (.model [("text".toList, .str, .str []), ("value".toList, .int, .int 5)]),
+      .list [defaultRecord [("text".toList, .str, .str []), ("value".toList, .int, .int 5)],
+             defaultRecord [("text".toList, .str, .str []), ("value".toList, .int, .int 5)]]),
+   ("tag".toList, .list .str, .list [.str "a".toList, .str []])]
+
+/-- non-vacuity: the schema is in the family and a row (column `o.2.value` left out) parses to
+a value under the inferred model — cells converted, the missing entry filled with the default
+`5` of the header `o.2.value:int=5` (evaluated by the kernel) -/
+theorem row_demo : InFamily rowDemo ∧
+    (match parseInferred (renderHeaders rowDemo)
+        ([("note=n", "hello"), ("o.1.text", "t1"), ("o.1.value:int=5", "7"), ("o.2.text", "t2"),
+          ("tag.1=a", "x"), ("tag.2", "")].map (fun p => (p.1.toList, p.2.toList))) with
+      | some (.ok v) => Row.Val.beq v (.model
+          [("note".toList, .str "hello".toList),
+           ("o".toList, .list [.model [("text".toList, .str "t1".toList), ("value".toList, .int 7)],
+                              .model [("text".toList, .str "t2".toList), ("value".toList, .int 5)]]),
+           ("tag".toList, .list [.str "x".toList, .str []])])
+      | _ => false) = true := by
+  refine ⟨by decide, by decide +kernel⟩
+
+/-- where the index-order condition lives: the MODEL is inferred from columns in any order
+(`infer_order_insensitive`), but `RowParser.find_entry` asserts that the entries of one list
+are opened in increasing order when a ROW is read — the same columns with `tag.2` before
+`tag.1` are an `AssertionError` under the inferred and under the explicit model alike -/
+theorem row_parser_asserts_index_order :
+    let cols := [("tag.2", "y"), ("tag.1=a", "x")].map (fun p : String × String => (p.1.toList, p.2.toList))
+    (match parseInferred (cols.map (fun c => c.1)) cols with
+      | some (.error e) => decide (e = Row.Err.assertion)
+      | _ => false) = true ∧
+    (match Row.parseRow (rowSchema (.model [("tag".toList, .list .str, .list [.str "a".toList, .str []])])) cols with
+      | .error e => decide (e = Row.Err.assertion)
+      | _ => false) = true := by decide +kernel
+
 /-- **Cell independence**: with a blank `data_model` the row model is computed from the header
 row only; two sheets with the same headers get the same model whatever their cells. -/
 theorem infer_cells_independent (headers : List Str) (cells₁ cells₂ : List (List Str)) :
@@ -350,17 +399,20 @@ theorem dotted_default_roundtrips :
 /-- `:` in a name -/
 theorem needs_no_colon_in_name :
     let sch : Schema := [("a:b".toList, .str, .str [])]
-    inFamilyB sch = false ∧ roundtripB sch = false := by decide +kernel
+    inFamilyB sch = false ∧ roundtripB sch = false ∧
+    inFamilyUB sch = false ∧ inferEquivB (renderHeaders sch) (.model sch) = false := by decide +kernel
 
 /-- `=` in a name -/
 theorem needs_no_equals_in_name :
     let sch : Schema := [("a=b".toList, .int, .int 0)]
-    inFamilyB sch = false ∧ roundtripB sch = false := by decide +kernel
+    inFamilyB sch = false ∧ roundtripB sch = false ∧
+    inFamilyUB sch = false ∧ inferEquivB (renderHeaders sch) (.model sch) = false := by decide +kernel
 
 /-- a name that reads as an integer turns the record into a list -/
 theorem needs_non_integer_name :
     let sch : Schema := [("1".toList, .str, .str [])]
     inFamilyB sch = false ∧ roundtripB sch = false ∧
+    inFamilyUB sch = false ∧ inferEquivB (renderHeaders sch) (.model sch) = false ∧
     inferIs (renderHeaders sch) (.list .str) = true := by decide +kernel
 
 /-- list elements share one element type: the code keeps the LAST one and the per-index
@@ -374,7 +426,8 @@ theorem needs_list_of_record_default :
     let sub : List Field := [("a".toList, .str, .str [])]
     let bad : Schema := [("f".toList, .list (.model sub), .list [])]
     let good : Schema := [("f".toList, .list (.model sub), .list [defaultRecord sub, defaultRecord sub])]
-    inFamilyB bad = false ∧ roundtripB bad = false ∧ inFamilyB good = true ∧ roundtripB good = true := by
+    inFamilyB bad = false ∧ roundtripB bad = false ∧ inFamilyB good = true ∧ roundtripB good = true ∧
+    inFamilyUB bad = false ∧ inferEquivB (renderHeaders bad) (.model bad) = false := by
   decide +kernel
 
 /-- the code lists simple fields before complex ones (needed for EXACT equality only: the schema
@@ -382,11 +435,25 @@ is in `InFamilyU` and `infer_order_insensitive` applies) -/
 theorem needs_simple_first :
     let sch : Schema := [("r".toList, .model [("a".toList, .str, .str [])],
       defaultRecord [("a".toList, .str, .str [])]), ("b".toList, .str, .str [])]
-    inFamilyB sch = false ∧ roundtripB sch = false := by decide +kernel
+    inFamilyB sch = false ∧ roundtripB sch = false ∧
+    inFamilyUB sch = true ∧ inferEquivB (renderHeaders sch) (.model sch) = true := by decide +kernel
 
 /-- a text default with leading/trailing blanks is stripped -/
 theorem needs_stripped_default :
     let sch : Schema := [("s".toList, .str, .str " x".toList)]
-    inFamilyB sch = false ∧ roundtripB sch = false := by decide +kernel
+    inFamilyB sch = false ∧ roundtripB sch = false ∧
+    inFamilyUB sch = false ∧ inferEquivB (renderHeaders sch) (.model sch) = false := by decide +kernel
+
+/-- a sub-record needs at least one field (no column would mention it) -/
+theorem needs_nonempty_subrecord :
+    let sch : Schema := [("a".toList, .str, .str []), ("r".toList, .model [], defaultRecord [])]
+    inFamilyB sch = false ∧ inFamilyUB sch = false ∧ roundtripB sch = false ∧
+    inferEquivB (renderHeaders sch) (.model sch) = false := by decide +kernel
+
+/-- `List[T]` in ONE column needs an annotation type `T` (no record inside) -/
+theorem needs_annotation_type :
+    let sch : Schema := [("l".toList, .list (.model [("a".toList, .str, .str [])]), .list [])]
+    inFamilyB sch = false ∧ inFamilyUB sch = false ∧ roundtripB sch = false ∧
+    inferEquivB (renderHeaders sch) (.model sch) = false := by decide +kernel
 
 end Rpft.Props.C18
